@@ -287,6 +287,50 @@ def routing(text, nodes, feats):
     return items
 
 
+TYPED_MODEL = """
+pub struct Tok { pub id: u64 }
+impl Tok { pub fn clone(&self) -> (r: Tok) ensures r == *self, { Tok { id: self.id } } }
+pub struct Kind { pub id: u64 }
+pub struct Interp { pub id: u64 }
+pub struct TVal { pub id: u64 }
+#[allow(non_camel_case_types)]
+pub enum RealNumber { Integer(Tok), Decimal(Tok), Float(Tok), Hexadecimal(Tok), Octal(Tok), Binary(Tok), Other(u64) }
+pub enum Number { Real(RealNumber), Other(u64) }
+pub enum Literal { Number(Number), Other(u64) }
+// typed_literal(lit, kind): evaluate `lit`, then convert the value to `kind` (the conversion is C12's subject).  Uninterpreted here.
+pub uninterp spec fn typed(lit: Literal, kind: Kind) -> Option<TVal>;
+#[verifier::external_body]
+pub fn typed_literal(lit: &Literal, kind: &Kind, p: &Interp) -> (r: Option<TVal>) ensures r == typed(*lit, *kind), { unimplemented!() }
+"""
+
+
+def typed_integer_arm(text, feats):
+    """the block of the `RealNumber::TypedInteger((num_tkn, kind)) => { .. }` arm of real(), verbatim, `#[cfg(..)]` attributes on its
+    statements evaluated for the default feature set; `?` on MResult -> `?` on Option; the block's value is returned as `Some(..)`"""
+    import units.C02 as C02
+    from units import vC16
+    sig, body = extract_fn(text, "real")
+    mm = find_code(body, r"let result = match rl\s*\{")
+    if not mm:
+        raise AnchorLost("real(): `let result = match rl {` not found")
+    inner = body[mm.end():match_brace(body, mm.end() - 1) - 1]
+    for attrs, pat, expr in C02.split_arms(inner):
+        pm = re.match(r"RealNumber::TypedInteger\s*\(\s*\(\s*(\w+)\s*,\s*(\w+)\s*\)\s*\)", pat.strip())
+        if not pm:
+            continue
+        e = strip_comments(expr).strip()
+        if not e.startswith("{"):
+            e = "{ " + e.rstrip(",") + " }"
+        e = vC16.apply_cfg(e, feats)
+        tok, kind = pm.group(1), pm.group(2)
+        return ("// real(): the arm of a suffixed integer `123u8` (block verbatim)\n"
+                "fn typed_integer_arm(%s: &Tok, %s: &Kind, p: &Interp) -> (r: Option<TVal>)\n"
+                "  // the digits are read as an unsuffixed integer literal (a double: C13.verus.integer), so that the conversion to the suffix kind\n"
+                "  // is the float -> kind conversion, which truncates and CLAMPS (C12); reading them as an i64 would make it the wrapping integer cast\n"
+                "  ensures r == typed(Literal::Number(Number::Real(RealNumber::Integer(*%s))), *%s),\n{\n  let v = %s;\n  Some(v)\n}\n" % (tok, kind, tok, kind, e))
+    raise AnchorLost("real(): no TypedInteger arm")
+
+
 def plan_units(plan):
     text = read_repo(LIT_RS)
     nodes = read_repo(NODES_RS)
@@ -310,6 +354,7 @@ def plan_units(plan):
         ("c13_negated", lambda: negated(text, feats), {"negated": "C13.verus.negated.same_kind_negated_value"}),
         ("c13_complex", lambda: complex_(text), {"complex": "C13.verus.complex.re_im_parts"}),
         ("c13_route", lambda: routing(text, nodes, feats), {"real_route": "C13.verus.real.routing_table"}),
+        ("c13_typed", lambda: [TYPED_MODEL, typed_integer_arm(text, feats)], {"typed_integer_arm": "C13.verus.real.suffixed_integer_clamps"}),
     ]
     what = {
         "dec": "`0d..` evaluates to I64(sum of digit * 10^i); accepted iff decimal digits that fit i64", "hex": "`0x..` evaluates to I64(value in radix 16)",
@@ -318,7 +363,9 @@ def plan_units(plan):
         "scientific": "`w.p e [-] x` with an integral exponent is the double nearest to the number it spells (one rounding); with a fractional exponent it is w.p * 10^(+-x.y) in IEEE arithmetic",
         "rational": "`n/d` is the fraction n/d in lowest terms; zero denominator yields no value",
         "negated": "`-lit` has the kind of `lit` and the negated value; non-numeric operands are rejected",
-        "complex": "real and imaginary parts go to re and im (re = 0 when absent)", "real_route": "every literal form is evaluated by its own evaluator"}
+        "complex": "real and imaginary parts go to re and im (re = 0 when absent)",
+        "typed_integer_arm": "a suffixed integer literal is its digits read as an unsuffixed integer (double) and then converted to the suffix kind, i.e. by the clamping float -> kind conversion of C12, never by a wrapping integer cast",
+        "real_route": "every literal form is evaluated by its own evaluator"}
     for uname, build, fns in groups:
         try:
             items = build()
@@ -327,9 +374,9 @@ def plan_units(plan):
                 plan.anchor_errors.append((on, str(e)))
             continue
         can = "canary_" + uname
-        utext = vlib.verus_file(aliases + [model] + items + [verus_canary(can, "x: u64", [])])
+        utext = vlib.verus_file((items if uname == "c13_typed" else aliases + [model] + items) + [verus_canary(can, "x: u64", [])])
         for fn, on in fns.items():
-            plan.ob(on, "verus", "proved", functions=["src/interpreter/src/literals.rs: %s()" % fn.replace("real_route", "real")], what=what[fn])
+            plan.ob(on, "verus", "proved", functions=["src/interpreter/src/literals.rs: %s()" % fn.replace("real_route", "real").replace("typed_integer_arm", "real")], what=what[fn])
         plan.verus.append(VerusUnit(uname, utext, fns, [can]))
     plan.dropped += [
         "(X) literal evaluators extracted verbatim and rewritten by rules L1-L9 of units/vC13.py: chars.iter().collect() -> collect_string; i64::from_str_radix(..).unwrap() / str::parse(..).unwrap() -> model calls whose failure is an early None (a panic is an error, Interpreter::interpret converts it); format! -> fmt_dot / fmt_sci; Ref<T> = identity; doubles opaque (f64 -> F, unary minus -> fneg, x * 10f64.powf(e) -> fmul(x, fpow10(e))); panic!(..) -> return None; comments dropped",
